@@ -190,6 +190,8 @@ def run(ctx):
     # each input is resolved on its own: no configuration (or anything else) is carried from one input to the next
     import c15
     c15.loop_state(ctx, "R14-f")
+    alias_setters(ctx, "R14-g")
+    derived_widths_capped(ctx, "R14-h")
 
     E = r.rule("R14-e", "width clamp closure of set_width_heuristics: not set ↦ heuristic value; set ∧ value > max_width ↦ max_width; "
                         "otherwise the user's value")
@@ -232,3 +234,98 @@ def run(ctx):
                 r.violation(E, "width clamp[was_set=%s,value>max_width=%s] returns %s" % (was_set, gt, ret),
                             "a derived width can exceed max_width or ignore the user's value", ["%s:%d" % (cl.file, cl.line)])
         r.floor(E, n, 3, "paths of the clamp closure")
+
+
+ALIASES = {
+    # deprecated option → (successor, polarity): the polarity is what the two names say ("hide" is the negation of "show")
+    "fn_args_layout": ("fn_params_layout", "same"),
+    "hide_parse_errors": ("show_parse_errors", "negated"),
+}
+
+
+def alias_setters(ctx, rid):
+    """R14-g: a deprecated alias gives its successor the value its name promises"""
+    from absint import explore, vkey, variant_name, TooManyPaths
+    p, r = ctx.p, ctx.r
+    r.rule(rid, "Config::set_<alias> for every deprecated alias of the table {fn_args_layout → fn_params_layout (same value), "
+                "hide_parse_errors → show_parse_errors (negated)}: the only store is to the successor's value slot, on the path where "
+                "the alias was set and the successor was not, and the stored value is the alias' value with the table's polarity")
+    n = 0
+    for alias, (succ, pol) in sorted(ALIASES.items()):
+        f = p.named("set_" + alias, within="rustfmt_nightly::config::Config")
+        if f is None:
+            r.undecidable(rid, "Config::set_%s not found" % alias)
+            continue
+        pure = lambda c: "was_set" in c.name or c.name.endswith("::" + alias) or c.name.endswith("::" + succ)
+        try:
+            paths = explore(f, pure=pure, is_effect=lambda c: False)
+        except TooManyPaths as e:
+            r.undecidable(rid, str(e))
+            continue
+        r.paths(rid, len(paths))
+        for path in paths:
+            if path.end != "ret":
+                continue
+            stores = [e for e in path.effects if e.kind == "store"]
+            d = {}
+            for k, v in path.decisions:
+                if k.endswith("::%s(config::Config::was_set(arg1))" % alias) or ("::%s(" % alias in k and "was_set" in k):
+                    d["alias_set"] = v
+                if "::%s(" % succ in k and "was_set" in k:
+                    d["succ_set"] = v
+            should_store = d.get("alias_set") is True and d.get("succ_set") is False
+            n += 1
+            ok = True
+            why = ""
+            if not should_store:
+                ok = not stores
+                why = "stores %s although alias_set=%s succ_set=%s" % ([e.name for e in stores], d.get("alias_set"), d.get("succ_set"))
+            else:
+                want = ("!" if pol == "negated" else "") + "config::Config::%s(arg1)" % alias
+                got = [(e.name, vkey(e.args[0])) for e in stores]
+                ok = len(stores) == 1 and stores[0].name.endswith("arg1.%s.2" % succ) and vkey(stores[0].args[0]) == want
+                why = "stores %s, expected arg1.%s.2 = %s" % (got, succ, want)
+            r.instance(rid, "set_%s[alias set=%s, successor set=%s]" % (alias, d.get("alias_set"), d.get("succ_set")),
+                       "ok" if ok else "violation", "%s:%d" % (f.file, f.line))
+            if not ok:
+                r.violation(rid, "set_%s: %s" % (alias, "successor gets the wrong value" if should_store else "unexpected store"),
+                            "the deprecated `%s` must give `%s` the %s value: %s" % (alias, succ, "opposite" if pol == "negated" else "same", why),
+                            ["%s:%d" % (f.file, f.line)])
+    r.floor(rid, n, 6, "paths of the alias setters")
+
+
+def derived_widths_capped(ctx, rid):
+    """R14-h: the scaled default heuristics are capped at max_width"""
+    p, r = ctx.p, ctx.r
+    r.rule(rid, "WidthHeuristics::scaled(max_width): every field of the returned value passes through Ord::min(.., max_width) "
+                "(directly or in the helper closure that computes it) — `width limits derived from use_small_heuristics never "
+                "exceed max_width`")
+    f = p.named("scaled", within="WidthHeuristics")
+    if f is None:
+        r.undecidable(rid, "WidthHeuristics::scaled not found")
+        return
+    adt = next((a for k, a in p.adts.items() if k.endswith("options::WidthHeuristics")), None)
+    names = [nm for nm, t in adt["variants"][0]["fields"]] if adt else []
+    n = 0
+    for bb, i, s in f.stmts():
+        if not (s[0] == "=" and s[2][0] == "agg" and isinstance(s[2][1], list) and s[2][1][0] == "adt" and s[2][1][1].endswith("options::WidthHeuristics")):
+            continue
+        for nm, op in zip(names, s[2][2]):
+            n += 1
+            capped = False
+            if op[0] != "k":
+                d = f.derived_from(op[1][0])
+                for c in d["calls"]:
+                    if c.name.endswith("::min") or (c.declared or "").endswith("cmp::Ord::min"):
+                        capped = True
+                    g = p.fns.get(c.resolved or "") or next((p.fns[x] for x in c.refs if x in p.fns), None)
+                    if g is not None and g.crate == "rustfmt_nightly":
+                        for cc in g.calls():
+                            if (cc.name.endswith("::min") or (cc.declared or "").endswith("cmp::Ord::min")):
+                                capped = True
+            r.instance(rid, "scaled.%s capped" % nm, "ok" if capped else "violation", "%s:%d" % (f.file, s[3]))
+            if not capped:
+                r.violation(rid, "WidthHeuristics::scaled: %s is not capped at max_width" % nm,
+                            "the default heuristic width is only scaled up with max_width, never bounded by it: with max_width "
+                            "below the default the derived width exceeds max_width", ["%s:%d" % (f.file, s[3])])
+    r.floor(rid, n, 8, "fields of the scaled heuristics")
